@@ -1305,7 +1305,7 @@ kind all 2^(len-1) fragmentations x {no interruption, Interrupted before every f
 distinct = distinct (route, direction, header kind) and (header kind, offset, error kind, fragmentation, interruption) cells"
         .to_string();
     let samples: u64 = match tier {
-        "quick" => 200,
+        "quick" => 8000,
         "thorough" => 100_000,
         _ => 1,
     };
